@@ -133,7 +133,7 @@ class Where(Suite):
 
 
 if __name__ == "__main__":
-    main("C11", [Where(), Kwik()],
+    main("C11", [Where(), Kwik()], gen_targets=['where'],
          level_note="random.choice is an input of the model (scripted in the correspondence through the module attribute); "
                     "list(dataset.universe) is taken in the order the interpreter iterates it",
          rule="where: every pair of partial rankings over two elements (+ one fixed ranking) x 3 schemes, random pairs in random datasets; "
